@@ -389,6 +389,8 @@ pub fn run_c01(ctx: &mut Ctx) {
                         ),
                         true,
                     );
+                    // the same message through the native decoder mirror of the model
+                    emit_mirror(ctx, e, &bytes, Some(&val));
                 }
                 Ok(Err(why)) => ctx.out.oracle_failure(&format!("native round trip fails: {why}"), &e.name),
                 Err(_) => ctx.out.oracle_failure("native round trip panics", &e.name),
